@@ -61,7 +61,7 @@ def r06_c(ctx):
 def r06_e(ctx):
     e = engine(ctx)
     rr = RuleResult('R06.e', 'constant subscripts of argument lists in the reader are dominated by a non-emptiness '
-                    'fact', floor=2)
+                    'fact', floor=1)
     for (kind, fq, construct), ok in sorted(e.sites.items()):
         if kind == 'subscript':
             rr.ob(ok, {'site': '%s: %s' % (fq, construct), 'non_empty_known': ok})
